@@ -208,12 +208,34 @@ func (l *lineage) startGenome(kind int) (*genetics.Genome, string) {
 	case 1:
 		return richStart(), "rich"
 	default:
-		for {
+		// every other time: the layout of newGenomeRand with hidden nodes (their ids lie BETWEEN the sensors and the outputs)
+		// and an output that no gene touches - interface nodes must survive crossover whether or not a gene reaches them
+		wantGap := rand.Intn(2) == 0
+		for try := 0; ; try++ {
 			in, out := 2+rand.Intn(2), 1+rand.Intn(2)
-			g, err := genetics.VerifNewGenomeRand(1, in, out, rand.Intn(3), 3, rand.Intn(2) == 0, 0.5, l.opts)
-			if err == nil && len(g.Genes) > 0 {
-				return g, "random"
+			hidden := rand.Intn(3)
+			if wantGap && try < 400 {
+				out, hidden = 2, 1+rand.Intn(2)
 			}
+			g, err := genetics.VerifNewGenomeRand(1, in, out, hidden, 3, rand.Intn(2) == 0, 0.5, l.opts)
+			if err != nil || len(g.Genes) == 0 {
+				continue
+			}
+			if wantGap && try < 400 {
+				touched := map[int]bool{}
+				for _, x := range g.Genes {
+					touched[x.Link.OutNode.Id], touched[x.Link.InNode.Id] = true, true
+				}
+				gap := false
+				for _, n := range g.Nodes {
+					gap = gap || (n.NeuronType == network.OutputNeuron && !touched[n.Id])
+				}
+				if !gap {
+					continue
+				}
+				return g, "random-unconnected-output"
+			}
+			return g, "random"
 		}
 	}
 }
